@@ -94,6 +94,12 @@ func ForceSelfClosingTags(b []byte) []byte {
 			continue
 		}
 
+		if bytes.HasSuffix(openingTagContents, []byte("/")) {
+			// same thing when the self closed tag has the name of its parent, as in
+			// `<group><group operation="delete"/></group>`: the closing tag is the parent's
+			continue
+		}
+
 		b = bytes.ReplaceAll(
 			b,
 			fullMatch,
